@@ -6,6 +6,7 @@ import (
 	"strings"
 
 	tls "github.com/refraction-networking/utls"
+	"github.com/refraction-networking/utls/zz_verif/refsrv"
 	"github.com/refraction-networking/utls/zz_verif/simnet"
 	"github.com/refraction-networking/utls/zz_verif/simrand"
 	"github.com/refraction-networking/utls/zz_verif/simrt"
@@ -217,6 +218,18 @@ func runC02(c *Ctx) {
 		scfg.CurvePreferences = []tls.CurveID{tls.CurveP384}
 		stdcfg.CurvePreferences = []stdtls.CurveID{stdtls.CurveP384}
 	}
+	// a third of the HelloRetryRequest worlds use the reference server, whose
+	// HelloRetryRequest carries a cookie that the second ClientHello has to echo
+	rcfg := refCfg()
+	if forceHRR && ch.Bool(35, "hrr-cookie") {
+		peer = PeerRef
+		ck := make([]byte, []int{1, 16, 300}[ch.Pick(3, "cookie-len")])
+		ch.Bytes(ck, "cookie")
+		rcfg.Byz.HRRCookie = ck
+		rcfg.MaxVersion = srvMax
+		rcfg.CurvePreferences = []refsrv.CurveID{refsrv.CurveP384}
+		rcfg.NextProtos = []string{"h2", "http/1.1", "a"}
+	}
 	nconn := 1
 	if history {
 		nconn = 2
@@ -231,7 +244,7 @@ func runC02(c *Ctx) {
 			rs.FailAt = randFail
 			cfg.Rand = rs
 		}
-		sp := &ConnSpec{Name: fmt.Sprintf("c%d", i), ID: idi.ID, Spec: freshSpec(newSpec), CCfg: cfg, Peer: peer, SCfg: scfg, StdCfg: stdcfg,
+		sp := &ConnSpec{Name: fmt.Sprintf("c%d", i), ID: idi.ID, Spec: freshSpec(newSpec), CCfg: cfg, Peer: peer, SCfg: scfg, StdCfg: stdcfg, RefCfg: rcfg,
 			Payload: [][]byte{[]byte("ping")}, Setup: func(l *simnet.Link) { l.Frag = frag }}
 		if fingerprint {
 			// fingerprint this parrot's own hello (taken from a throw-away build) and re-apply it
@@ -301,6 +314,9 @@ func runC02(c *Ctx) {
 		}
 		if len(obs.CH) > 1 {
 			c.Probe("hello-after-hrr")
+			if obs.CH[1].Cookie != nil {
+				c.Probe("hello-with-cookie")
+			}
 		}
 		for _, h := range obs.CH {
 			if len(h.PSKIdentities) > 0 {
